@@ -490,6 +490,10 @@ def anchor_files(pid):
     return files
 
 
+_DTYPE_LIMITS = {"int8": 128, "uint8": 256, "int16": 32768, "uint16": 65536, "float16": 2048,
+                 "float32": 16777216 // 2, "half": 2048, "single": 16777216 // 2}
+
+
 def file_int_constants(paths, repo=None):
     """{path: sorted integer literals in [8, 10**7] of the file (incl. constant powers such as 2**16)}"""
     import ast
@@ -516,6 +520,11 @@ def file_int_constants(paths, repo=None):
                     and isinstance(node.right, ast.Constant) and isinstance(node.left.value, int) \
                     and isinstance(node.right.value, int):
                 v = node.left.value * node.right.value
+            # narrowed dtypes bound the values / indices an array can hold: treat the bound as a size constant
+            name = node.attr if isinstance(node, ast.Attribute) else node.id if isinstance(node, ast.Name) else \
+                node.value if isinstance(node, ast.Constant) and isinstance(node.value, str) else None
+            if name in _DTYPE_LIMITS:
+                vals.add(_DTYPE_LIMITS[name])
             if v is not None and 8 <= v <= 10 ** 7:
                 vals.add(v)
         out[path] = sorted(vals)
